@@ -151,6 +151,7 @@ pub struct Report {
     known:         Vec<KnownFinding>,
     known_hit:     Mutex<BTreeSet<String>>,
     new_violations: AtomicU64,
+    kind_hist:     Mutex<BTreeMap<String, u64>>,
     pub capped:    AtomicBool,
     extra:         Mutex<BTreeMap<String, Value>>,
     assumptions:   Mutex<Vec<String>>,
@@ -179,6 +180,7 @@ impl Report {
             known: load_known_findings(&cli.property),
             known_hit: Mutex::new(BTreeSet::new()),
             new_violations: AtomicU64::new(0),
+            kind_hist: Mutex::new(BTreeMap::new()),
             capped: AtomicBool::new(false),
             extra: Mutex::new(BTreeMap::new()),
             assumptions: Mutex::new(vec![]),
@@ -264,6 +266,7 @@ impl Report {
             }
         }
         self.new_violations.fetch_add(1, Ordering::Relaxed);
+        *self.kind_hist.lock().unwrap().entry(kind.to_string()).or_insert(0) += 1;
         let doc = json!({
             "property": self.property,
             "kind": kind,
@@ -315,6 +318,7 @@ impl Report {
         coverage.insert("bound_completed".into(), bound_completed);
         coverage.insert("distinct_outcomes".into(), json!(outcomes.len()));
         coverage.insert("outcome_histogram".into(), json!(outcomes));
+        coverage.insert("violation_kinds".into(), json!(self.kind_hist.lock().unwrap().clone()));
         coverage.insert("technique".into(), json!(self.technique.lock().unwrap().clone()));
         coverage.insert("known_findings_matched".into(), json!(self.known_hit.lock().unwrap().iter().cloned().collect::<Vec<_>>()));
         for (k, v) in self.extra.lock().unwrap().iter() {
@@ -336,6 +340,9 @@ impl Report {
         let path = dir.join(format!("{}.json", self.property));
         if let Err(e) = std::fs::write(&path, serde_json::to_vec_pretty(&doc).unwrap()) {
             machinery_error(&format!("cannot write evidence {}: {e}", path.display()));
+        }
+        if nviol > 0 {
+            println!("violation kinds: {:?}", self.kind_hist.lock().unwrap());
         }
         println!(
             "{} tier={} evaluations={} states={} transitions={} traces={} nontrivial={} outcomes={} exhaustive={} violations={} wall={:.1}s",
